@@ -56,3 +56,13 @@ VARIANTS += [
     V("twin-rename-stale-as-list", BS, "        stale = set()\n        if diffusion != 'g' and diffusion_prod == 'g_prod':\n            stale.add('g_prod')\n",
       "        stale = set()\n        if diffusion_prod == 'g_prod' and not diffusion == 'g':\n            stale.update(['g_prod'])\n", expect="silent"),
 ]
+
+VARIANTS += [
+    # session-4 repair: the autograd helpers refuse inference mode (the unrepaired helpers returned silent zeros)
+    V("vjp-runs-under-inference-mode", "torchsde/_core/misc.py", "def vjp(outputs, inputs, **kwargs):\n    _assert_autograd_available()\n",
+      "def vjp(outputs, inputs, **kwargs):\n", rule="R16.10"),
+    V("inference-mode-guard-warns-only", "torchsde/_core/misc.py", "        raise RuntimeError(\"This computation differentiates",
+      "        warnings.warn(\"This computation differentiates", rule="R16.10"),
+    V("twin-inference-mode-guard-inline", "torchsde/_core/misc.py", "def vjp(outputs, inputs, **kwargs):\n    _assert_autograd_available()\n",
+      "def vjp(outputs, inputs, **kwargs):\n    if torch.is_inference_mode_enabled():\n        raise RuntimeError('no autograd under torch.inference_mode()')\n", expect="silent"),
+]
